@@ -1,9 +1,10 @@
-(* C13/Driver.v — correspondence entry point: the "proc_limits" names of print_json for a limits
+(* C13/Driver.v — correspondence entry point: the "proc_limits" entries (name, soft, hard, unit) of print_json for a limits
    stream, with the HashMap iterated in reverse insertion order (any order gives the same). *)
 From RM Require Import C13.Model C13.Linux.
 Open Scope Z_scope.
-Definition run_limits_json (data : bytes) : option (list bytes) :=
-  match limits_json (@rev entry) data with Ret l => Some l | _ => None end.
+From RM Require Import C13.Unloaded.
+Definition run_limits_json (data : bytes) : option (list (bytes * (limit * limit * bytes))) :=
+  match limits_render (fun e => e) (@rev entry) data with Ret l => Some l | _ => None end.
 
 (* E cases: cert_subject of each module after folding the evil-json certificates: the members of the JSON object in file order
    (a repeated name replaces the earlier member), the resulting HashMap iterated in reverse order, then sorted by the code *)
